@@ -614,6 +614,8 @@ class MethodsMixin(object):
 
         def sf_implies(node, st):
             a = self.truth(self.ev(node.args[0], st), st)
+            if z3.is_false(z3.simplify(a)):
+                return VBool(True)
             st.guards.append(a)
             try:
                 bv = self.ev(node.args[1], st)
